@@ -231,7 +231,6 @@ func hcMain(p HCParams) {
 	}
 }
 
-
 // pingRec decorates the real client: every Ping() result is logged; the fifth consecutive error is where
 // the process has to die.
 type pingRec struct {
